@@ -117,41 +117,7 @@ func runC09(w *core.World, r *core.Report) {
 	}
 	// R3: Add - not defined in any frame
 	{
-		var cut []core.Edge
-		n := 0
-		for _, c := range core.Calls(add) {
-			call, ok := c.(*ssa.Call)
-			f := core.StaticCallee(c)
-			if !ok || f == nil || core.PkgOf(f) != "cache" || f.Signature.Results().Len() != 1 {
-				continue
-			}
-			if bt, ok := f.Signature.Results().At(0).Type().Underlying().(*types.Basic); !ok || bt.Kind() != types.Int {
-				continue
-			}
-			refs := call.Referrers()
-			if refs == nil {
-				continue
-			}
-			for _, u := range *refs {
-				bo, ok := u.(*ssa.BinOp)
-				if !ok || bo.X != ssa.Value(call) {
-					continue
-				}
-				k, ok := core.ConstInt(bo.Y)
-				if !ok {
-					continue
-				}
-				// which edge means "not found" (result == -1)?
-				switch {
-				case bo.Op == token.GTR && k == -1, bo.Op == token.GEQ && k == 0, bo.Op == token.NEQ && k == -1:
-					cut = append(cut, core.EdgesWhere(bo, false)...)
-					n++
-				case bo.Op == token.EQL && k == -1, bo.Op == token.LSS && k == 0, bo.Op == token.LEQ && k == -1:
-					cut = append(cut, core.EdgesWhere(bo, true)...)
-					n++
-				}
-			}
-		}
+		cut, n := notDefinedEdges(add, 0)
 		if n == 0 {
 			r.Bad("R3", "cache.(*Cache).Add: single scope per symbol", add.Pos(), "Add does not test whether the key is already defined in some frame")
 		} else {
@@ -762,4 +728,61 @@ func checkCacheLimits(w *core.World, r *core.Report, oracles map[*ssa.Function]b
 				"a value can be stored without passing the capacity test: "+w.PathString(path))
 		}
 	}
+}
+
+// notDefinedEdges lists the edges of fn on which the frame lookup (a function of package cache
+// returning an int, -1 for "not found") is known to have found nothing. A helper of package
+// cache that returns only an error counts on its error==nil edges when every one of its own
+// success returns lies behind such an edge.
+func notDefinedEdges(fn *ssa.Function, depth int) (cut []core.Edge, n int) {
+	for _, c := range core.Calls(fn) {
+		call, ok := c.(*ssa.Call)
+		f := core.StaticCallee(c)
+		if !ok || f == nil || core.PkgOf(f) != "cache" || f.Signature.Results().Len() != 1 {
+			continue
+		}
+		if f.Signature.Results().At(0).Type().String() == "error" && depth < 2 && len(f.Blocks) > 0 {
+			hc, hn := notDefinedEdges(f, depth+1)
+			if hn == 0 {
+				continue
+			}
+			if in, _ := core.Reach(core.Entry(f), isSuccessReturnPred(f), core.NewCut().AddEdge(hc...)); in != nil {
+				continue
+			}
+			for _, ce := range core.NilTestEdges(call) {
+				if ce.Val {
+					cut = append(cut, ce.E)
+					n++
+				}
+			}
+			continue
+		}
+		if bt, ok := f.Signature.Results().At(0).Type().Underlying().(*types.Basic); !ok || bt.Kind() != types.Int {
+			continue
+		}
+		refs := call.Referrers()
+		if refs == nil {
+			continue
+		}
+		for _, u := range *refs {
+			bo, ok := u.(*ssa.BinOp)
+			if !ok {
+				continue
+			}
+			x, op, k, ok := core.CmpConst(bo)
+			if !ok || x != ssa.Value(call) {
+				continue
+			}
+			// which edge means "not found" (result == -1)?
+			switch {
+			case op == token.GTR && k == -1, op == token.GEQ && k == 0, op == token.NEQ && k == -1:
+				cut = append(cut, core.EdgesWhere(bo, false)...)
+				n++
+			case op == token.EQL && k == -1, op == token.LSS && k == 0, op == token.LEQ && k == -1:
+				cut = append(cut, core.EdgesWhere(bo, true)...)
+				n++
+			}
+		}
+	}
+	return
 }
